@@ -123,6 +123,32 @@ def gen(rng, tier):
         yield line(s, to, None, ver, b"", "malformed")
         if t > 1:
             yield line(s, t - rng.choice([1, 100]), None, ver, R(), "target-before-the-aggregation-time")
+    # ---- a signature WITHOUT a calendar chain extended to the calendar head (no publication time in the request): nothing but the
+    #      reply's own consistency with the request stands between a chain for another second and the result ----
+    for i in range(10 if not big else 100):
+        s = S.build(rng, with_cal=False, anchor=None, with_rfc=False)
+        t = s.chains[0].time
+        root = aggregation_root(s)
+        ver = rng.choice([1, 2])
+        p = t + rng.choice([1, 7, 86400, 86400 * 400])
+        yield line(s, None, None, ver, reply(ver, 1, 0, new_chain(rng, s, t, p, root)), "ok")
+        for dt in (1, -1, -1000, 86400):
+            if 0 < t + dt <= p:
+                yield line(s, None, None, ver, reply(ver, 1, 0, new_chain(rng, s, t + dt, p, root)), "other-aggregation-time")
+        # KSI_ExtendResp_verifyWithRequest itself (later stages of the extension may catch what it lets through)
+        vwr = lambda rep, pt, label: "vwr %d %s %s %d %s %s" % (ver, hx(KEY), hx(rep), t, "-" if pt is None else pt, label)   # noqa: E731
+        good = new_chain(rng, s, t, p, root)
+        for pt in (None, p):
+            yield vwr(reply(ver, 1, 0, good), pt, "ok")
+            yield vwr(reply(ver, 2, 0, good), pt, "wrong-request-id")
+            yield vwr(reply(ver, 1, 0x101, None), pt, "status-not-zero")
+            yield vwr(reply(ver, 1, 0, None), pt, "no-calendar-chain")
+            for dt in (1, -1, -1000):
+                if 0 < t + dt <= p:
+                    yield vwr(reply(ver, 1, 0, new_chain(rng, s, t + dt, p, root)), pt, "other-aggregation-time")
+        yield vwr(reply(ver, 1, 0, good), p + 1, "other-publication-time")
+        if p - 1 >= t:
+            yield vwr(reply(ver, 1, 0, new_chain(rng, s, t, p - 1, root)), p, "other-publication-time")
     # ---- KSI_extendSignature: target = nearest publication of a PKI-verified publications file ----
     EMAIL = pki.OIDS["emailAddress"]
     good_cons = "%s:%s" % (EMAIL, pki.SUBJECT["emailAddress"].encode().hex())
@@ -193,7 +219,7 @@ CONFIG.required_theorems = ["verifyWithRequest_ok_iff", "compatible_ok_iff", "co
                              "extend_ok_requires", "unauthenticated_reply_refused", "result_structure"]
 CONFIG.translators = [tables.gen_templates, tables.gen_hashalgs, tables.gen_policies]
 CONFIG.engines = [Engine("c08", ["exec_c08.c"], "drv_c08", gen, trivial=trivial, env={"VERIF_PKI_DIR": os.path.join(core.VERIF, ".build", "pki")})]
-CONFIG.rule = ("op lines from one PRNG (VERIF_SEED). hashlib-built signatures without calendar chain / with one anchored by publication record, "
+CONFIG.rule = ("op lines from one PRNG (VERIF_SEED). Op vwr: KSI_ExtendResp_verifyWithRequest itself on the authenticated reply for a request with given times (honest, wrong id, status, no chain, other aggregation / publication time; with and without a publication time in the request). hashlib-built signatures without calendar chain (incl. a directed family: no calendar chain, extended to the calendar head, reply for another second) / with one anchored by publication record, "
                "authentication record or nothing (some with an RFC3161 record), extended through the file transport with PDU v1 and v2, by "
                "KSI_Signature_extendTo (target absent / equal / later) and KSI_Signature_extend (with a publication record: right root, other root, other "
                "time). Replies: the honest one (directions from the times, right links those of the old chain, with and without an unknown non-critical "
